@@ -220,6 +220,8 @@ class BuiltinCalls:
                 return Bottom()
             if "set-order" in s.flags:
                 I.event("set-iteration", node, elem=s.elem, seq=s)
+                if I.explicit and (s.fixed is None or len(s.fixed) >= 2):
+                    I.note_undecided("the order of list(set(...)) is unspecified (an implementation detail of hashing): a result that depends on it is not modelled", node)
             if name == "tuple":
                 if s.fixed is not None:
                     return TupleV(tuple(s.fixed))
